@@ -137,6 +137,13 @@ pub fn resolve_local<CT>(
                                 resolved: ResolvedRecord::NonAuthoritative { rrs, soa_rr },
                             }
                         }
+                        ResolvedRecord::Delegation { .. } => {
+                            tracing::trace!("got incomplete cname answer");
+                            LocalResolutionResult::CNAME {
+                                rrs,
+                                cname_question,
+                            }
+                        }
                     },
                     Ok(LocalResolutionResult::Partial { rrs: mut cname_rrs }) => {
                         tracing::trace!("got partial cname answer");
@@ -352,12 +359,8 @@ impl From<LocalResolutionResult> for ResolvedRecord {
             LocalResolutionResult::Partial { rrs } => {
                 ResolvedRecord::NonAuthoritative { rrs, soa_rr: None }
             }
-            LocalResolutionResult::Delegation { rrs, soa_rr, .. } => {
-                if let Some(soa_rr) = soa_rr {
-                    ResolvedRecord::Authoritative { rrs, soa_rr }
-                } else {
-                    ResolvedRecord::NonAuthoritative { rrs, soa_rr: None }
-                }
+            LocalResolutionResult::Delegation { rrs, .. } => {
+                ResolvedRecord::Delegation { ns_rrs: rrs }
             }
             LocalResolutionResult::CNAME { rrs, .. } => {
                 ResolvedRecord::NonAuthoritative { rrs, soa_rr: None }
